@@ -256,6 +256,22 @@ def generate(tier):
                         for first in (True, False):
                             sp += 1
                             add(build_enum(fl, assign, emode, vmode, flip, first, sp))
+    # wide elements: 4 and 5 fields, at most two deviating fields, name / named_field at their defaults and flipped
+    for fl in (S.Fields('t', 4), S.Fields('n', 5)):
+        devs = 'rimxyz' if fl.style == 'n' else 'imz'
+        for r in (0, 1, 2):
+            for where in itertools.combinations(range(fl.n), r):
+                for syms in itertools.product(devs, repeat=r):
+                    a = ['s'] * fl.n
+                    for w, sy in zip(where, syms):
+                        a[w] = sy
+                    assign = ''.join(a)
+                    for flip in (0, 1):
+                        if flip and r == 2 and tier == 'quick':
+                            continue
+                        sp += 1
+                        add(build_struct(fl, assign, 'd' if r % 2 == 0 else 'o', flip, sp))
+                        add(build_enum(fl, assign, 'de'[sp % 2], 'dro'[sp % 3], flip, bool(sp % 2), sp))
     # #[derive(Debug)] twins with no parameters (enum: the enum name is off by default, like the std derive)
     for sh in S.struct_shapes(3, with_empty=True) + S.enum_shapes(2, 2) + S.enum_shapes(3, 1, vmin=3):
         add(build_twin(sh))
@@ -280,7 +296,7 @@ def generate(tier):
     return out
 
 
-RULE = ('structs: {unit, (), {}, tuple, named} with F fields x name {default, renamed, disabled} x named_field {default, flipped} x '
+RULE = ('wide elements (4-5 fields) with at most two deviating fields; structs: {unit, (), {}, tuple, named} with F fields x name {default, renamed, disabled} x named_field {default, flipped} x '
         'per field {shown, renamed, ignored (type whose Debug panics), method, renamed+method in both parameter orders, ignored+method (still ignored)}; enums: focus '
         'variant placed first/last next to a plain sibling x enum name {off, on, renamed} x variant name {default, renamed, disabled} '
         'x named_field x the same field alphabet; requests the documentation refuses (nameless empty shapes, rename on a positional '
